@@ -171,7 +171,10 @@ class SInt:
         return self._cmp(o, lambda a, b: a >= b)
 
     def __hash__(self):
-        raise Unsupported('hash of symbolic int (dict key / set member)')
+        # a symbolic integer used as a dict key / set member: concretised by forking over solver-chosen values (bounded; see SymCtx.concretise)
+        if _cur is None:
+            raise Unsupported('hash of symbolic int (dict key / set member)')
+        return hash(_cur.concretise(self.e))
 
     def __bool__(self):
         return _cur.decide(self.e != 0)
@@ -312,10 +315,12 @@ class SStr:
     branch).  Conversions through the shadowed int()/float() give Conv objects that remember
     their source, so an oracle can say `the value is int(of exactly that text)`."""
 
-    def __init__(self, name, nonempty=None, src=None, op=None):
+    def __init__(self, name, nonempty=None, src=None, op=None, num=None):
         self.name = name
         self.src = src
         self.op = op
+        self.num = num          # (lo, hi): the text is a decimal numeral of that range; int() of it can then be compared (fresh symbolic integer)
+        self._numvar = None
         if nonempty is None:
             nonempty = cur().fresh_bool(name + '_nonempty') if cur() is not None and cur().symbolic else True
         self.nonempty = nonempty
@@ -368,11 +373,28 @@ class Conv:
     def __sub__(self, o):
         return Conv(('sub', o, self.kind), self.src)
 
+    def _n(self):
+        s = self.src
+        if self.kind != 'int' or getattr(s, 'num', None) is None or _cur is None:
+            raise Unsupported('comparison of a converted opaque text')
+        if s._numvar is None:
+            s._numvar = _cur.fresh_int(s.name + '#int', s.num[0], s.num[1])
+        return s._numvar
+
     def __gt__(self, o):
         # ids come from digit strings of the grammar's POSINT production
-        if self.kind == 'int' and o == 0:
+        if self.kind == 'int' and getattr(self.src, 'num', None) is None and isinstance(o, int) and o == 0:
             return True
-        raise Unsupported('comparison of a converted opaque text')
+        return self._n() > o
+
+    def __ge__(self, o):
+        return self._n() >= o
+
+    def __lt__(self, o):
+        return self._n() < o
+
+    def __le__(self, o):
+        return self._n() <= o
 
     def __repr__(self):
         return '<%s of %r>' % (self.kind, self.src)
@@ -422,6 +444,7 @@ class SymCtx:
         self.str_used = 0
         self.model = None
         self.decided = {}
+        self.truncated = 0
 
     # -- solver plumbing
     def _check(self, *extra):
@@ -448,7 +471,7 @@ class SymCtx:
         i = len(self.trail)
         z = z3()
         if i < len(self.plan):
-            choice, alt = self.plan[i]
+            choice, alt = self.plan[i][:2]
             self.trail.append((choice, alt))
             self.s.add(expr if choice else z.Not(expr))
             self.model = None
@@ -472,11 +495,33 @@ class SymCtx:
         self.trail.append((False, False))
         return False
 
+    def concretise(self, e, k=3):
+        """the code under test needs a concrete value of e (hashing): fork over up to k solver-chosen values; the remaining values are
+        NOT explored - the path set is then incomplete, which explore() reports as an error unless a replayed violation was found"""
+        z = z3()
+        for _ in range(k):
+            i = len(self.trail)
+            if i < len(self.plan) and len(self.plan[i]) == 3:
+                v = self.plan[i][2]
+            else:
+                if self.model is None:
+                    if self._check() != 'sat':
+                        raise Abort()
+                    self.model = self.s.model()
+                v = self.model.eval(e, model_completion=True).as_long()
+            vz = z.BitVecVal(v, e.size()) if z.is_bv(e) else z.IntVal(v)
+            r = self._decide(e == vz)
+            self.trail[-1] = tuple(self.trail[-1][:2]) + (v,)
+            if r:
+                return v
+        self.truncated += 1
+        raise Abort()
+
     def _free(self):
         """unconstrained binary decision (no solver call)"""
         i = len(self.trail)
         if i < len(self.plan):
-            choice, alt = self.plan[i]
+            choice, alt = self.plan[i][:2]
             self.trail.append((choice, alt))
             return choice
         self.trail.append((True, True))
@@ -666,6 +711,7 @@ class Result:
         self.status = 'ok'        # ok | cex | unknown | error | budget
         self.paths = 0            # completed paths (reached the final checks)
         self.aborted = 0          # paths that left the assumptions
+        self.truncated = 0        # paths cut after the bounded concretisation of a hashed symbolic value
         self.queries = 0
         self.solver_s = 0.0
         self.wall_s = 0.0
@@ -699,12 +745,7 @@ def _one_path(run, plan, timeout_ms, want_sample):
         signal.alarm(limit)
     except (ValueError, OSError):
         old_handler = None
-    try:
-        ret = run(ctx)
-        out['completed'] = True
-        if ret is False:
-            ctx.checks.append(('harness returned False', False))
-    except PathTimeout:
+    def _timed_out():
         # non-termination of the code under test on this path: candidate violation, confirmed if the concrete replay does not terminate either
         out['status'] = 'cex'
         out['failed'] = 'does not terminate (no result within %d s on one path)' % limit
@@ -713,43 +754,54 @@ def _one_path(run, plan, timeout_ms, want_sample):
             out['cex'] = ctx.model_assignment() if ctx._check() == 'sat' else None
         except BaseException:
             out['cex'] = {'vars': {}, 'choices': [c[1] for c in ctx.choices]}
+    try:
+        ret = run(ctx)
+        out['completed'] = True
+        if ret is False:
+            ctx.checks.append(('harness returned False', False))
+    except PathTimeout:
+        _timed_out()
     except Abort:
         out['aborted'] = True
+        out['truncated'] = ctx.truncated
     except Inconclusive as e:
         out['status'] = 'unknown'
         out['detail'] = 'solver: %s' % (e,)
     except Exception as e:
-        # an exception escaping the real code on this path: candidate violation, decided by the concrete replay
-        import traceback
-        tb = traceback.extract_tb(e.__traceback__)
-        where = ' <- '.join('%s:%d' % (f.filename.split('/')[-1], f.lineno) for f in tb[-3:][::-1])
-        repo_root = os.path.realpath(os.environ.get('VERIF_REPO', '/repo')) + os.sep
-        verif_root = os.path.dirname(os.path.dirname(os.path.realpath(__file__))) + os.sep
-        # the innermost frame that belongs to the repository or to the harness decides who raised (library frames below it are skipped)
-        owner = None
-        for f in reversed(tb):
-            fn = os.path.realpath(f.filename)
-            if fn.startswith(repo_root):
-                owner = 'repo'
-                break
-            if fn.startswith(verif_root) and os.sep + 'fakegdb' + os.sep not in fn:
-                owner = 'harness'
-                break
-        if type(e).__module__ != 'gdb' and owner != 'repo':
-            # raised by harness code itself (innermost frame outside the repository): a harness bug, never a verdict
-            out['status'] = 'error'
-            out['detail'] = 'harness exception %s: %s @ %s' % (type(e).__name__, e, where)
+        if 'PathTimeout' in str(e):
+            # the watchdog fired inside a solver call-back (ctypes wraps the exception)
+            _timed_out()
         else:
-            out['status'] = 'cex'
-            out['failed'] = 'exception: %s: %s @ %s' % (type(e).__name__, e, where)
-            try:
-                if ctx._check() == 'sat':
-                    out['cex'] = ctx.model_assignment()
-                else:
-                    out['status'] = 'error'
-                    out['detail'] = 'exception on infeasible path: ' + out['failed']
-            except Inconclusive:
-                out['status'] = 'unknown'
+            import traceback
+            tb = traceback.extract_tb(e.__traceback__)
+            where = ' <- '.join('%s:%d' % (f.filename.split('/')[-1], f.lineno) for f in tb[-3:][::-1])
+            repo_root = os.path.realpath(os.environ.get('VERIF_REPO', '/repo')) + os.sep
+            verif_root = os.path.dirname(os.path.dirname(os.path.realpath(__file__))) + os.sep
+            # the innermost frame that belongs to the repository or to the harness decides who raised (library frames below it are skipped)
+            owner = None
+            for f in reversed(tb):
+                fn = os.path.realpath(f.filename)
+                if fn.startswith(repo_root):
+                    owner = 'repo'
+                    break
+                if fn.startswith(verif_root) and os.sep + 'fakegdb' + os.sep not in fn:
+                    owner = 'harness'
+                    break
+            if type(e).__module__ != 'gdb' and owner != 'repo':
+                # raised by harness code itself (innermost frame outside the repository): a harness bug, never a verdict
+                out['status'] = 'error'
+                out['detail'] = 'harness exception %s: %s @ %s' % (type(e).__name__, e, where)
+            else:
+                out['status'] = 'cex'
+                out['failed'] = 'exception: %s: %s @ %s' % (type(e).__name__, e, where)
+                try:
+                    if ctx._check() == 'sat':
+                        out['cex'] = ctx.model_assignment()
+                    else:
+                        out['status'] = 'error'
+                        out['detail'] = 'exception on infeasible path: ' + out['failed']
+                except Inconclusive:
+                    out['status'] = 'unknown'
     except Unsupported as e:
         out['status'] = 'error'
         out['detail'] = 'unsupported operation on a symbolic value: %s' % (e,)
@@ -850,6 +902,7 @@ def explore(run, max_paths=None, max_seconds=None, n_samples=2, timeout_ms=60000
         res.solver_s += o['solver_s']
         if o['aborted']:
             res.aborted += 1
+            res.truncated += o.get('truncated', 0)
         if o['completed']:
             res.paths += 1
             res.str_used += o['str_used']
@@ -864,7 +917,7 @@ def explore(run, max_paths=None, max_seconds=None, n_samples=2, timeout_ms=60000
             plan.pop()
         if not plan:
             break
-        plan[-1] = (False, False)
+        plan[-1] = (False, False) + tuple(plan[-1][2:])
         if max_paths is not None and res.paths + res.aborted >= max_paths:
             res.status = 'budget'
             res.detail = 'path budget %d reached' % max_paths
@@ -873,6 +926,10 @@ def explore(run, max_paths=None, max_seconds=None, n_samples=2, timeout_ms=60000
             res.status = 'budget'
             res.detail = 'time budget %ds reached' % max_seconds
             break
+    if res.status == 'ok' and res.truncated:
+        # the code hashed a symbolic value and only some concretisations were explored: not a verdict
+        res.status = 'error'
+        res.detail = 'unsupported operation on a symbolic value: used as dict key / set member; %d path(s) cut after 3 concretisations, no violation among the explored ones' % res.truncated
     res.wall_s = time.time() - t0
     return res
 
@@ -996,6 +1053,42 @@ class SWord:
 
     def __iter__(self):
         return iter(SWord([c]) for c in self.chars)
+
+    def find(self, sub, start=0, end=None):
+        """first position of a constant needle (forks on each candidate position)"""
+        if not isinstance(sub, str) or not isinstance(start, int) or not (end is None or isinstance(end, int)):
+            raise Unsupported('find with a non-constant needle / symbolic bounds')
+        n = len(self.chars)
+        if start < 0:
+            start = max(0, n + start)
+        end = n if end is None else (max(0, n + end) if end < 0 else min(end, n))
+        for i in range(start, end - len(sub) + 1):
+            r = SWord(self.chars[i:i + len(sub)])._eq_str(sub)
+            if r is True or (r is not False and bool(r)):
+                return i
+        return -1
+
+    def index(self, sub, *a):
+        i = self.find(sub, *a)
+        if i < 0:
+            raise ValueError('substring not found')
+        return i
+
+    def rfind(self, sub, start=0, end=None):
+        if not isinstance(sub, str) or not isinstance(start, int) or not (end is None or isinstance(end, int)):
+            raise Unsupported('rfind with a non-constant needle / symbolic bounds')
+        n = len(self.chars)
+        end = n if end is None else min(end, n)
+        for i in range(end - len(sub), start - 1, -1):
+            r = SWord(self.chars[i:i + len(sub)])._eq_str(sub)
+            if r is True or (r is not False and bool(r)):
+                return i
+        return -1
+
+    def count(self, sub):
+        if not isinstance(sub, str) or len(sub) != 1:
+            raise Unsupported('count of a non-single-character needle')
+        return sum(1 for c in self.chars if bool(SWord([c])._eq_str(sub)))
 
     def __str__(self):
         if _cur is not None:
